@@ -15,13 +15,13 @@ Instants are integer seconds (UTC), rationals "p/q", `null` is NaN.
 open Lean EAO
 namespace EAO.Driver
 
-def getOptRat (j : Json) : Except String (Option Rat) :=
+def getPriceVal (j : Json) : Except String (Option Rat) :=
   if j.isNull then pure none else do pure (some (← getRat j))
 
 def getPriceCol (j : Json) : Except String (String × List (Option Rat)) := do
   let a ← j.getArr?
   if h : a.size = 2 then do
-    pure (← a[0].getStr?, ← getList getOptRat a[1])
+    pure (← a[0].getStr?, ← getList getPriceVal a[1])
   else throw "column [name, values] expected"
 
 def getPriceIndex (j : Json) : Except String PriceIndex := do
@@ -32,13 +32,13 @@ def getPriceIndex (j : Json) : Except String PriceIndex := do
     let aware ← field j "aware" Json.getBool?
     pure (.instants aware ts)
 
-def getPRow (j : Json) : Except String PRow := do
+def getPriceRow (j : Json) : Except String PRow := do
   let a ← j.getArr?
   if h : a.size = 2 then do
-    pure (← a[0].getInt?, ← getOptRat a[1])
+    pure (← a[0].getInt?, ← getPriceVal a[1])
   else throw "row [instant, value] expected"
 
-def getKnown (j : Json) : Except String (Int × Rat) := do
+def getPriceKnown (j : Json) : Except String (Int × Rat) := do
   let a ← j.getArr?
   if h : a.size = 2 then do
     pure (← a[0].getInt?, ← getRat a[1])
@@ -58,10 +58,10 @@ def handlePrices (op : String) (j : Json) : Option (Except String Json) :=
     | .ok out => pure (Json.mkObj [("cols", jList (fun c => Json.arr #[Json.str c.1, jOptRats c.2]) out)])
   | "prices_column" => do
     let pts ← field j "pts" getInts
-    let rows ← field j "rows" (getList getPRow)
+    let rows ← field j "rows" (getList getPriceRow)
     pure (jOptRats (gridColumn pts rows))
   | "prices_interp" => do
-    let kn ← field j "known" (getList getKnown)
+    let kn ← field j "known" (getList getPriceKnown)
     let xs ← field j "x" getInts
     pure (jOptRats (xs.map (npInterp kn)))
   | _ => throw s!"unknown op {op}"
